@@ -27,12 +27,16 @@ from oracles import c19_glif as G
 
 LEVEL = "model_checking"
 ASSUMPTIONS = [
-    "file-system behaviour is that of a case-sensitive POSIX tmpfs (/dev/shm); case-insensitive collisions are checked on the generated names with str.lower(), as the UFO conventions define them, not by a case-insensitive file system",
-    "glyph/layer names in file-backed units are valid XML attribute text (no control characters); long names are ASCII (255 characters = 255 bytes)",
-    "'legal' = the illegal-character and reserved-device-name lists of the UFO 3 conventions (ufoLib: plus '(' ')' and COM5-9/LPT4-9 which that module documents); names ending in '.' or ' ' are not judged",
-    "GlyphSet.readGlyph is observed at every reached state for every name instead of being a branching operation (it has no model effect)",
-    "designspace numbers are limited to 6 decimals (the writer documents '%f' formatting); format 4 documents carry complete locations",
-    "histories beyond the depth bounds, names outside the alphabet, plist trees deeper than 3 are not visited",
+    "file-system behaviour is that of a case-sensitive POSIX tmpfs (/dev/shm); case-insensitive collisions are judged on the generated names with str.lower(), as the UFO conventions define them, not by a case-insensitive file system",
+    "glyph/layer names in file-backed units are valid XML attribute text (no control characters); long names are ASCII (255 characters = 255 bytes); control characters only reach the bare userNameToFileName functions",
+    "'legal' = the illegal-character and reserved-device-name lists of the UFO 3 conventions (ufoLib.filenames: plus '(' ')' and COM5-9/LPT4-9, which that module documents); names ending in '.' or ' ' are not judged",
+    "the GlyphSet/UFOWriter models take file and directory names as opaque tokens observed from the implementation and only judge them by predicates; GlyphSet.readGlyph is run for every name at every end state instead of being a branching operation",
+    "operations whose precondition the caller broke (deleting a glyph whose file is gone after an out-of-sync rebuild, reopening a UFO whose layercontents.plist is stale or has no default layer) are not explored; a refused layer operation (UFOLibError) is accepted if nothing changed",
+    "designspace numbers have at most 6 decimals (the writer formats with %f); source names are always given (unnamed sources receive generated names); localised 'en' names of sources/instances, instance kerning/info flags and paths are outside the grammar",
+    "GLIF notes with several lines are compared modulo white space (the element text is re-indented); numbers compare by value, bool/int/float/str/bytes types must be kept in plists",
+    "up-conversion: UFO 1/2 kerning where a glyph sits in two kerning groups of one side has no defined meaning and is skipped; the glyph set of the old UFO is empty",
+    "VERIF_SEED is not used: every tier enumerates one fixed space",
+    "histories beyond the depth bounds, names outside the alphabets, plist trees deeper than 3, documents more than 2 (3) deviations away from the base are not visited",
 ]
 
 TMP_ROOT = os.environ.get("C19_TMP") or ("/dev/shm" if os.path.isdir("/dev/shm") else tempfile.gettempdir())
@@ -265,6 +269,7 @@ class GSModel:
         self.committed = None  # contents.plist as last written: glyph name -> file name
         self.layerinfo = None  # index into LAYERINFO or None (no file)
         self.opened_with_contents = False  # did contents.plist exist when the GlyphSet object was made
+        self.empty_write_shape = "never"  # how the GlyphSet that last wrote an empty layer info had been opened
 
     def clean(self):
         return self.committed == self.mem and set(self.mem.values()) == set(self.files)
@@ -311,11 +316,11 @@ def abstract_apply(op, mem, committed):
 
 class GlyphSetHistories(FSUnit):
     name = "glyphset-histories"
-    rule = ("all operation histories on a real GlyphSet (UFO 3, default options) in a fresh /dev/shm directory: ops writeGlyph(name, record) "
-            "for 19 hostile names x 3 records (rich: all point types, components, anchors, guidelines, lib, image, unicodes, note / empty / advance only), "
-            "deleteGlyph(name), writeContents, rebuild (new GlyphSet on the directory), writeLayerInfo(3 values); depth 3 over the full alphabet "
-            "(thorough: plus depth 4 over the 8-name core alphabet x 2 records); model = dicts name->file token->record; at the end state of every history: "
-            "names and name->file mapping equal the model, readGlyph of every name equals the written record, absent name raises KeyError, "
+    rule = ("all operation histories on a real GlyphSet (UFO 3, default options) in a fresh /dev/shm directory: ops writeGlyph(name, record), deleteGlyph(name), writeContents, "
+            "rebuild (new GlyphSet on the directory), writeLayerInfo(3 values); records = rich (all point types, components, anchors, guidelines, lib, image, unicodes, note) / empty / "
+            "advance only; quick: depth 3 over 19 hostile names x 1 record and over 4 file-sharing names x 3 records; thorough adds depth 3 over 19 names x 3 records and depth 4 over the "
+            "9-name core x 1 record and the 4 names x 3 records; model = dicts name -> file token -> record (tokens observed, never computed); at the end state of every history: "
+            "names and name->file mapping equal the model, readGlyph of every name equals the written record (missing file: GlifLibError), absent name raises KeyError, "
             "directory listing equals the model's file set, contents.plist (read with the stdlib) equals the committed mapping and the listing when in sync, "
             "a fresh reader agrees, layerinfo read-back equals the last write, file names legal / <=255 / distinct ignoring case; distinct = each history")
     required_witnesses = ("clash resolved by counter", "long name clipped", "reserved name escaped", "overwrite keeps file",
@@ -450,6 +455,7 @@ class GlyphSetHistories(FSUnit):
                     if m.layerinfo is not None:
                         rec.witness("layerinfo removed")
                     m.layerinfo = None
+                    m.empty_write_shape = "opened-with-contents.plist" if m.opened_with_contents else "opened-without-contents.plist"
         except Exception as e:
             nm = names[op[1]] if kind in ("w", "d") else ""
             fn = gs.contents.get(nm) if kind == "w" else None
@@ -527,7 +533,7 @@ class GlyphSetHistories(FSUnit):
             extra = sorted(set(listing) - exp_listing)
             missing = sorted(exp_listing - set(listing))
             if extra == ["layerinfo.plist"] and not missing:
-                fkey = "glyphset:layerinfo-not-removed:" + ("opened-with-contents.plist" if m.opened_with_contents else "opened-without-contents.plist")
+                fkey = "glyphset:layerinfo-not-removed:" + m.empty_write_shape
             else:
                 fkey = "glyphset:directory-differs"
             rec.violation(fkey, "directory has extra %r, lacks %r" % ([N.short(x, 30) for x in extra], [N.short(x, 30) for x in missing]), case=hist)
@@ -573,7 +579,7 @@ class GlyphSetHistories(FSUnit):
         dd = G.vdiff(info.__dict__, exp_info, "layerinfo")
         if dd:
             if not exp_info:
-                fkey = "glyphset:layerinfo-not-removed:" + ("opened-with-contents.plist" if m.opened_with_contents else "opened-without-contents.plist")
+                fkey = "glyphset:layerinfo-not-removed:" + m.empty_write_shape
             else:
                 fkey = "glyphset:layerinfo-differs"
             rec.violation(fkey, "readLayerInfo: %s" % dd, case=hist)
@@ -621,6 +627,7 @@ def layer_ops(names):
     for i in range(len(names)):
         ops.append(["rm", i])
     ops.append(["wl"])
+    ops.append(["wo"])
     ops.append(["ro"])
     return ops
 
@@ -628,13 +635,13 @@ def layer_ops(names):
 class LayerHistories(FSUnit):
     name = "ufowriter-layer-histories"
     rule = ("all operation histories on a real UFOWriter (format 3) in a fresh directory: getGlyphSet(layer, defaultLayer in {F,T}) + write one marked glyph, "
-            "renameGlyphSet(old, new, defaultLayer), deleteGlyphSet(layer), writeLayerContents, reopen (new UFOWriter on the path, only when layercontents.plist is in sync and valid); "
+            "renameGlyphSet(old, new, defaultLayer), deleteGlyphSet(layer), writeLayerContents() / writeLayerContents(reversed order), reopen (new UFOWriter on the path, only when layercontents.plist is in sync and valid); "
             "layer names from a 12-name hostile alphabet (public.default, case variants, reserved, '/' vs ':' clash, 248/249-char names, U+0130, reserved part at the clip point); "
             "quick: depth 2 over all names + depth 3 over 5 core names, thorough: depth 3 over all names + depth 4 over 3 names; an operation may be refused with UFOLibError "
             "(then nothing may change); after every history: layerContents equals the model, no two layers share a directory, directory names are 'glyphs' or legal 'glyphs.*' <=255 chars "
             "distinct ignoring case, the UFO directory listing equals the model, every layer directory holds its own marked glyph, layercontents.plist (stdlib reader) equals the last commit, "
             "and a UFOReader returns the same layer order, default layer and glyphs; distinct = each history")
-    required_witnesses = ("layer clash resolved by counter", "long layer name clipped", "default switched by rename", "operation refused", "reader compared", "reopened")
+    required_witnesses = ("layer clash resolved by counter", "long layer name clipped", "default switched by rename", "operation refused", "reader compared", "reopened", "explicit layer order")
     chunk = 4
 
     def space(self, tier):
@@ -740,10 +747,9 @@ class LayerHistories(FSUnit):
                 w.renameGlyphSet(old, new, defaultLayer=op[3])
                 dtok = w.layerContents.get(new)
                 olddir = m.layers[old]
-                if old != new:
+                if dtok != olddir or old != new:
+                    # a renamed / re-homed layer is registered anew: it goes to the end of the default order
                     del m.layers[old]
-                    m.layers[new] = dtok
-                else:
                     m.layers[new] = dtok
                 if dtok != olddir:
                     m.marker[dtok] = m.marker.pop(olddir)
@@ -758,6 +764,14 @@ class LayerHistories(FSUnit):
             elif kind == "wl":
                 w.writeLayerContents()
                 m.committed = [[n, dd] for n, dd in m.layers.items()]
+            elif kind == "wo":
+                # explicit layer order: the reverse of the current one
+                order = list(m.layers)[::-1]
+                w.writeLayerContents(order)
+                m.layers = {n: m.layers[n] for n in order}
+                m.committed = [[n, dd] for n, dd in m.layers.items()]
+                if len(order) > 1:
+                    rec.witness("explicit layer order")
             elif kind == "ro":
                 if m.committed is None or m.committed != [[n, dd] for n, dd in m.layers.items()] or not m.valid():
                     return "disabled"
@@ -788,7 +802,7 @@ class LayerHistories(FSUnit):
         return True
 
     def verify(self, w, m, path, rec, hist):
-        if list(w.layerContents.items()) != list(m.layers.items()) and dict(w.layerContents) != m.layers:
+        if dict(w.layerContents) != m.layers:
             rec.violation("layers:layerContents-differ", "%r vs model %r" % (short_map(w.layerContents), short_map(m.layers)), case=hist)
             return
         seen = {}
